@@ -4,6 +4,7 @@
 (*  {"ev":"sym","a":str,"b":str,"cs":..,"ab":BOOLEAN,"ba":BOOLEAN,"aa":BOOLEAN} arbitrary strings *)
 (*  {"ev":"mem","lst":[pres],"x":pres,"res":BOOLEAN}  IRIs.Contains                    *)
 (*  {"ev":"app","lst":[pres],"x":pres,"post":[pres]}  IRIs.Append                      *)
+(*  {"ev":"addpath","ci":pres,"els":[..],"got":str} / {"ev":"contains","ci":pres,"cw":pres,"cs":B,"got":B}  growth *)
 EXTENDS IRI, Json, IOUtils
 
 VARIABLES l, bad, done
@@ -33,6 +34,10 @@ Why(ev) ==
      IF ev.res = MemberF(ev.lst, ev.x) THEN <<>> ELSE <<"membership">>
   ELSE IF ev.ev = "app" THEN
      IF ev.post = AppendF(ev.lst, ev.x) THEN <<>> ELSE <<"append">>
+  ELSE IF ev.ev = "addpath" THEN      \* growth (observation): got = what the library returned
+     IF ev.got = Str(AddPathF(ev.ci, ev.els)) THEN <<>> ELSE <<"note:addpath">>
+  ELSE IF ev.ev = "contains" THEN
+     IF ev.got = ContainsF(ev.ci, ev.cw, ev.cs) THEN <<>> ELSE <<"note:contains">>
   ELSE <<"unknown-event">>
 
 INSTANCE EventJudge
